@@ -649,7 +649,7 @@ package leader
 //@   ghost leaderThisTick Bool = false
 //@   on recv ticker set leaderThisTick = false
 //@   on load kvElection.isLeader as l set leaderThisTick = l.value
-//@   on spawn heartbeatLoop$1 assert C01+C03+C07.refresh_only_while_leader: leaderThisTick
+//@   on spawn heartbeatLoop$1 assert C06+C03+C07.refresh_only_while_leader: leaderThisTick
 //@   on call HealthChecker.Check assert C12.health_only_while_leader: leaderThisTick
 //@   on recv ticker set failed = false
 //@   on recv ticker set classified = false
@@ -793,7 +793,7 @@ package leader
 //@   on ret KeyValue.Get as g set getEnt = g.result0
 //@   on ret KeyValue.Get set got = true
 //@   on store kvElection.revision assert C07+C01.leader_never_adopts_observed_revision: !sawLeader
-//@   on store kvElection.leaderID as s assert C07+C18.leader_never_adopts_observed_id: !sawLeader || s.value == e.cfg.InstanceID
+//@   on store kvElection.leaderID as s assert C18.leader_never_adopts_observed_id: !sawLeader || s.value == e.cfg.InstanceID
 //@   ensures C06.vacancy_triggers_acquire: got && (getErr != nil || getEnt == nil || LenOf(EntryVal(getEnt)) == 0) ==> spawns(attemptAcquireWithRetry) == 1
 //@   ensures C13.no_acquire_on_live_record: got && getErr == nil && getEnt != nil && LenOf(EntryVal(getEnt)) != 0 ==> spawns(attemptAcquireWithRetry) == 0
 //@   ensures C06.leader_skips: !got ==> spawns(attemptAcquireWithRetry) == 0
@@ -809,7 +809,7 @@ package leader
 //@   on load kvElection.revision as l set ownRev = l.value
 //@   on load kvElection.revision set revLoaded = true
 //@   on store kvElection.revision assert C07+C01.leader_never_adopts_observed_revision: !sawLeader
-//@   on store kvElection.leaderID as s assert C07+C18.leader_never_adopts_observed_id: !sawLeader || s.value == e.cfg.InstanceID
+//@   on store kvElection.leaderID as s assert C18.leader_never_adopts_observed_id: !sawLeader || s.value == e.cfg.InstanceID
 //@   on call becomeFollower set demote_cause = sawLeader && ParseOK(EntryVal(entry)) && IDOf(EntryVal(entry)) != e.cfg.InstanceID && revLoaded && EntryRev(entry) > ownRev
 //@   on ret becomeFollower as r set cleared = r.result
 //@   on spawn handleWatchEvent$1 assert C10.watch_gate: e.cfg.AllowPriorityTakeover && ParseOK(EntryVal(entry)) && e.cfg.Priority > PrioOf(EntryVal(entry))
